@@ -22,7 +22,14 @@ def ownership_msg(contract, action, **kw):
     return En(MSGTY[contract].split('::')[-2] + '::ExecuteMsg', 'UpdateOwnership', [act])
 
 
-def config_msg(contract):
+def config_msg(contract, full=False):
+    if full and contract == PM:
+        return mk_enum(MSGTY[PM], 'UpdateConfig', fee_collector_addr=Some('newfc'), farm_manager_addr=Some('newfm'), pool_creation_fee=Some(coin_v('uusd', 5)), feature_toggle=NONE())
+    if full and contract == FM:
+        # every configurable field at once: a field applied outside the owner check shows for any of them
+        return mk_enum(MSGTY[FM], 'UpdateConfig', fee_collector_addr=Some('newfc'), epoch_manager_addr=Some('newem'), pool_manager_addr=Some('newpm'),
+                       create_farm_fee=Some(coin_v('uom', 7)), max_concurrent_farms=Some(9), max_farm_epoch_buffer=Some(20), min_unlocking_duration=Some(2 * DAY),
+                       max_unlocking_duration=Some(300 * DAY), farm_expiration_time=Some(3000000), emergency_unlock_penalty=Some(5 * 10 ** 16))
     if contract == PM:
         return mk_enum(MSGTY[PM], 'UpdateConfig', fee_collector_addr=Some('newfc'), farm_manager_addr=NONE(), pool_creation_fee=Some(coin_v('uusd', 5)), feature_toggle=NONE())
     if contract == FM:
@@ -43,7 +50,7 @@ def setup(I, contract, pending):
     set_epoch(I, 20, now_s=20 * DAY + 5)
     for c in ALL:
         set_ownership(I, c, 'creator', pending='pendy' if pending else None)
-    for a in ('newfc', 'pendy', 'mallory', 'creator', 'newowner'):
+    for a in ('newfc', 'newfm', 'newem', 'newpm', 'pendy', 'mallory', 'creator', 'newowner'):
         I.assume(I.addr_valid(a))
 
 
@@ -69,6 +76,12 @@ def _replay(contract, kind):
         if kind == 'toggle':
             steps.append({'op': 'set_pool', 'pool': pool_json('p1', ['uA', 'uB'], [6, 6], [5, 5], 'constant_product', (0, 0, 0, []))})
             msg = {'update_config': {'feature_toggle': {'pool_identifier': 'p1', 'swaps_enabled': False}}}
+        elif kind == 'config_full':
+            msg = {PM: {'update_config': {'fee_collector_addr': '@newfc', 'farm_manager_addr': '@newfm', 'pool_creation_fee': {'denom': 'uusd', 'amount': '5'}}},
+                   FM: {'update_config': {'fee_collector_addr': '@newfc', 'epoch_manager_addr': '@newem', 'pool_manager_addr': '@newpm',
+                                          'create_farm_fee': {'denom': 'uom', 'amount': '7'}, 'max_concurrent_farms': 9, 'max_farm_epoch_buffer': 20,
+                                          'min_unlocking_duration': 2 * DAY, 'max_unlocking_duration': 300 * DAY, 'farm_expiration_time': 3000000,
+                                          'emergency_unlock_penalty': '0.05'}}}[contract]
         elif kind == 'config':
             msg = {PM: {'update_config': {'fee_collector_addr': '@newfc', 'pool_creation_fee': {'denom': 'uusd', 'amount': '5'}}},
                    FM: {'update_config': {'create_farm_fee': {'denom': 'uom', 'amount': '7'}, 'max_concurrent_farms': 9}},
@@ -97,6 +110,8 @@ def _ob(contract, kind):
             funds = [coin_v('uom', 5)]
         if kind == 'config':
             msg = config_msg(contract)
+        elif kind == 'config_full':
+            msg = config_msg(contract, full=True)
         elif kind == 'toggle':
             put_pool(I, pool_info('p1', ['uA', 'uB'], [6, 6], [5, 5], xyk(), pool_fee(0, 0, 0)))
             msg = toggle_msg('p1', sw=False)
@@ -139,7 +154,7 @@ def _ob(contract, kind):
 
 
 for _c in ALL:
-    kinds = ['transfer', 'accept', 'renounce'] + (['config'] if _c != FC else []) + (['toggle'] if _c == PM else [])
+    kinds = ['transfer', 'accept', 'renounce'] + (['config'] if _c != FC else []) + (['toggle'] if _c == PM else []) + (['config_full'] if _c in (PM, FM) else [])
     for _k in kinds:
         obligation('C15', 'S1.%s_%s' % (_c, _k), entries=['execute', 'update_config', 'update_ownership', 'assert_owner', 'nonpayable'], kind='S',
                    statement='%s / %s: accepted only from the current owner (AcceptOwnership: only from the pending owner), never with funds; every other '
